@@ -2,6 +2,7 @@ INIT Init
 NEXT Next
 CHECK_DEADLOCK FALSE
 CONSTANTS MaxW = 3
+          MaxWA = 2
           CountsA = {1, 2, 99, 100, 101}
           KindsA = {"e", "a", "1"}
           MaxSegsA = 3
